@@ -6,6 +6,7 @@ unambiguous in the ARM ARM —
     op  rd, rn, rm|#imm   (add sub and orr eor bic lsl lsr asr ror mul adc sbc rsb orn, with or without `s`)
     op  rd, rm|#imm       (two-operand form of the above: rd is also the first source)
     mov/mvn rd, rm|#imm   ·   cmp/cmn/tst/teq rn, rm|#imm (nothing written)
+    mla/mls rd, rn, rm, ra   ·   umull/smull/umlal/smlal rdlo, rdhi, rn, rm   ·   sdiv/udiv rd, rn, rm
 — the register llvm prints as destination must be in the instance's defined_registers ∪ clobbers and every
 register llvm prints as source must be in its used_registers.  Anything else (memory operands, register
 lists, shifted operands, writeback, labels, conditional forms, unknown mnemonics) is counted as unknown and
@@ -20,6 +21,10 @@ from harness import c08_llvm as L
 DP = {"add", "sub", "and", "orr", "eor", "bic", "lsl", "lsr", "asr", "ror", "mul", "adc", "sbc", "rsb", "orn"}
 MOVS = {"mov", "mvn"}
 CMPS = {"cmp", "cmn", "tst", "teq"}
+MAC = {"mla", "mls"}                        # op rd, rn, rm, ra : rd written; rn, rm, ra read
+MULL = {"umull", "smull"}                   # op rdlo, rdhi, rn, rm : rdlo, rdhi written; rn, rm read
+MLAL = {"umlal", "smlal"}                   # as MULL, rdlo and rdhi also read
+DIVS = {"sdiv", "udiv"}                     # op rd, rn, rm
 REGNUM = {f"r{k}": k for k in range(16)}
 REGNUM.update({"sp": 13, "lr": 14, "pc": 15, "sb": 9, "sl": 10, "fp": 11, "ip": 12})
 
@@ -29,8 +34,10 @@ def base_mnemonic(m):
     for suffix in (".w", ".n"):
         if m.endswith(suffix):
             m = m[: -len(suffix)]
-    if m in DP | MOVS | CMPS:
+    if m in DP | MOVS | CMPS | MAC | MULL | MLAL | DIVS:
         return m
+    if m.endswith("s") and m[:-1] in {"mla"} | MULL | MLAL:
+        return m[:-1]
     if m.endswith("s") and m[:-1] in DP | MOVS:
         return m[:-1]
     return None
@@ -54,6 +61,16 @@ def roles(text):
             regs.append(None)
         else:
             return None          # shifted register, special register, label …
+    if mn in MAC | MULL | MLAL:
+        if len(regs) != 4 or None in regs:
+            return None
+        if mn in MAC:
+            return [regs[0]], regs[1:]
+        return regs[:2], regs[2:] + (regs[:2] if mn in MLAL else [])
+    if mn in DIVS:
+        if len(regs) != 3 or None in regs:
+            return None
+        return [regs[0]], regs[1:]
     if mn in CMPS:
         if len(regs) != 2 or regs[0] is None:
             return None
